@@ -19,6 +19,7 @@ ASSUMPTIONS = [
     "simplex-valued leaves are perturbed component-wise as raw vectors (the densities are smooth functions of the raw vector)",
 ]
 BUDGET = {"quick": 85, "thorough": 900}
+ROUNDS = {"thorough": 16}
 FLOORS = {"derivatives_compared": {"quick": 4000, "thorough": 40000}, "nonzero_derivatives": {"quick": 800, "thorough": 8000}, "densities": 30, "with_rescaling": 20}
 
 
